@@ -534,6 +534,61 @@ def layer5() -> typing.List[Case]:
     ]
     cases.append(dict(id="L5.empty_const_only", layer="L5", roots=["reg"], fixed={}, skeletons={}, members=file_members(odd, "odd_type"), core_all=False))
 
+    # fixed port-ID x content without any integer attribute (the port-ID itself needs an integer type in C++),
+    # for messages and services; every configuration is part of the quick core.
+    inner = {"reg/FpInner.1.0.dsdl": "float32 x\n@sealed\n"}
+    contents = [
+        ("only_floats", "float32 x\nfloat64 y\n", {}),
+        ("only_bools", "bool a\nbool b\n", {}),
+        ("only_composite", "reg.FpInner.1.0 c\n", inner),
+        ("empty", "", {}),
+        ("only_float_array", "float32[<=3] v\n", {}),
+    ]
+    fp = []
+    for k, (tag, body, extra) in enumerate(contents):
+        fp.append((f"fixed_port:message:{tag}", dict(extra, **{f"reg/{7100 + k}.FpMsg{k}.1.0.dsdl": body + "@sealed\n"})))
+        fp.append((f"fixed_port:service:{tag}", dict(extra, **{f"reg/{300 + k}.FpSvc{k}.1.0.dsdl": body + "@sealed\n---\n" + body + "@sealed\n"})))
+    cases.append(dict(id="L5.fixed_port", layer="L5", roots=["reg"], fixed={}, skeletons={}, members=file_members(fp, "fixed_port"), core_all=True))
+
+    # one type per include-triggering feature, with that feature and nothing else (what a header needs from the
+    # standard library must not depend on some other attribute happening to pull it in)
+    sf_inner = {"reg/SfInner.1.0.dsdl": "float32 x\n@sealed\n"}
+    single = [
+        ("int_only_in_var_array", "uint8[<=64] data\n", {}),
+        ("int_only_in_fixed_array_plus_float", "int16[4] q\nfloat32 w\n", {}),
+        ("int_only_in_fixed_array", "uint8[4] q\n", {}),
+        ("int64_only_in_var_array", "int64[<=2] q\n", {}),
+        ("bool_only_in_var_array", "bool[<=8] flags\n", {}),
+        ("bool_only_in_fixed_array", "bool[8] flags\n", {}),
+        ("float_only_in_var_array", "float32[<=4] v\n", {}),
+        ("float_only_in_fixed_array", "float64[3] v\n", {}),
+        ("float16_only_in_fixed_array", "float16[3] v\n", {}),
+        ("byte_only", "byte[<=4] b\n", {}),
+        ("utf8_only", "utf8[<=4] s\n", {}),
+        ("only_var_array_of_composites", "reg.SfInner.1.0[<=3] items\n", sf_inner),
+        ("only_fixed_array_of_composites", "reg.SfInner.1.0[2] items\n", sf_inner),
+        ("only_composite", "reg.SfInner.1.0 item\n", sf_inner),
+        ("only_int_constant", "uint8 K = 1\n", {}),
+        ("only_int64_constant", "int64 K = -1\n", {}),
+        ("only_float_constant", "float32 K = 0.5\n", {}),
+        ("only_bool_constant", "bool K = true\n", {}),
+        ("only_bool", "bool a\n", {}),
+        ("only_float32", "float32 a\n", {}),
+        ("only_float16", "float16 a\n", {}),
+        ("only_uint8", "uint8 a\n", {}),
+        ("only_void", "void16\n", {}),
+        ("union_of_floats", "@union\nfloat32 a\nfloat64 b\n", {}),
+        ("union_of_bool_and_float_array", "@union\nbool a\nfloat32[2] b\n", {}),
+        ("union_of_composites", "@union\nreg.SfInner.1.0 a\nreg.SfInner.1.0[<=2] b\n", sf_inner),
+    ]
+    sf = []
+    for k, (tag, body, extra) in enumerate(single):
+        sf.append((f"single_feature:{tag}", dict(extra, **{f"reg/Sf{k}.1.0.dsdl": body + "@sealed\n"})))
+    for k, (tag, body, extra) in enumerate(single[:1] + single[4:5] + single[11:12]):
+        sf.append((f"single_feature:{tag}:delimited", dict(extra, **{f"reg/SfD{k}.1.0.dsdl": body + "@extent 8192\n"})))
+        sf.append((f"single_feature:{tag}:service_response", dict(extra, **{f"reg/SfS{k}.1.0.dsdl": "@sealed\n---\n" + body + "@sealed\n"})))
+    cases.append(dict(id="L5.single_feature", layer="L5", roots=["reg"], fixed={}, skeletons={}, members=file_members(sf, "single_feature"), core_all=True))
+
     # constants of every primitive kind
     groups: typing.Dict[str, typing.List[typing.Tuple[str, str]]] = {}
 
@@ -707,6 +762,17 @@ HOSTILE_DOC = [
 ]
 
 
+def wrap_probe_text(end: int) -> str:
+    """A comment line in which the word ``C:\\logs\\`` ends exactly at text offset `end`, followed by more words."""
+    word = "C:\\logs\\"
+    plen = end - len(word)  # length of the prefix, which ends in a space
+    k = plen // 5 - 1
+    last = plen - 5 * k  # 5..9 characters incl. the trailing space
+    prefix = "abcd " * k + "x" * (last - 1) + " "
+    assert len(prefix) == plen and len(prefix + word) == end
+    return prefix + word + " unless the operator overrides it in the configuration file of the node"
+
+
 def layer7() -> typing.List[Case]:
     members = []
     rel_f, rel_c, rel_u = "reg/DocFields.1.0.dsdl", "reg/DocConsts.1.0.dsdl", "reg/DocUnion.1.0.dsdl"
@@ -728,6 +794,24 @@ def layer7() -> typing.List[Case]:
         members.append(dict(label=f"doc:{tag}@field", origin="doc_comment", lines={rel_f: [f"uint8 f{i} # {text}", "# second line", ""]}))
         members.append(dict(label=f"doc:{tag}@constant", origin="doc_comment", lines={rel_c: [f"uint8 K{i} = {i} # {text}", "# second line", ""]}))
         members.append(dict(label=f"doc:{tag}@union_field", origin="doc_comment", lines={rel_u: [f"uint8 f{i} # {text}", ""]}))
+    # A word ending in a backslash positioned so that it ends at every column around the width at which the C++
+    # templates wrap doc comments (120 columns minus indent and comment prefix): the text wrapper then makes it the
+    # LAST word of a wrapped line, which must not become a line continuation.
+    for end in range(84, 123):
+        text = wrap_probe_text(end)
+        members.append(dict(label=f"doc:wrap_backslash_end{end}@field", feature="doc:wrap_backslash@field", name=str(end), origin="doc_comment", lines={rel_f: [f"uint8 w{end} # {text}", ""]}))
+        members.append(dict(label=f"doc:wrap_backslash_end{end}@constant", feature="doc:wrap_backslash@constant", name=str(end), origin="doc_comment", lines={rel_c: [f"uint8 W{end} = 1 # {text}", ""]}))
+        members.append(dict(label=f"doc:wrap_backslash_end{end}@union_field", feature="doc:wrap_backslash@union_field", name=str(end), origin="doc_comment", lines={rel_u: [f"uint8 w{end} # {text}", ""]}))
+        if end >= 94:
+            members.append(
+                dict(
+                    label=f"doc:wrap_backslash_end{end}@type",
+                    feature="doc:wrap_backslash@type",
+                    name=str(end),
+                    origin="doc_comment",
+                    files={f"reg/DocW{end}.1.0.dsdl": f"# {text}\n# second line\nuint8 a\n@sealed\n"},
+                )
+            )
     cases = []
     for b in range(0, len(members), BATCH):
         cases.append(
